@@ -309,10 +309,12 @@ impl<T: Qcow2IoOps> Qcow2Dev<T> {
                 // change
                 self.flush_refcount().await?;
 
-                // flush mapping table in-place update
+                // flush mapping table in-place update. The slice stays
+                // dirty: if its cluster is still new, the regular flush
+                // zeroes the whole cluster first (wiping what is written
+                // here) and has to write this slice again.
                 self.flush_table(&*l2_table, 0, l2_table.byte_size())
                     .await?;
-                l2_handle.set_dirty(false);
 
                 // the new mapping has to be on disk before the old clusters
                 // are released below: their refcount decrement must not
